@@ -7,5 +7,6 @@ CONSTANTS
     Compat <- Code_Compat
     LatestEdition <- LatestEdition_first
     Forms <- AllFormsD
-INVARIANTS TypeOK FlagSound FlagMonotone EditionRule LatestEditionRule DefaultRule ParseRule ConstructMonotone
+    NightlyZero = "reject"
+INVARIANTS TypeOK FlagSound FlagMonotone EditionRule LatestEditionRule DefaultRule ParseRule ParseTotal ConstructMonotone
 CHECK_DEADLOCK FALSE
